@@ -33,6 +33,8 @@ func engineMain(prop, tier string, seed uint64, out, replay string) error {
 		scens = genC04(r, tier, st)
 	case "C05":
 		scens = genC05(r, tier, st)
+	case "C17":
+		scens = genC17(r, tier, st)
 	case "C03":
 		scens = genC03(r, tier, st)
 	case "C10":
